@@ -180,17 +180,6 @@ fn pinned_cfgs() -> Vec<(Cfg, u64)> {
     ]
 }
 
-/// A sink that accepts at most `cap` bytes per `write` call (legal for `std::io::Write`).
-struct Chunked { data: Vec<u8>, cap: usize }
-impl Write for Chunked {
-    fn write(&mut self, buf: &[u8]) -> std::io::Result<usize> {
-        let n = buf.len().min(self.cap);
-        self.data.extend_from_slice(&buf[..n]);
-        Ok(n)
-    }
-    fn flush(&mut self) -> std::io::Result<()> { Ok(()) }
-}
-
 struct Files { lex: Vec<u8>, matrix: Vec<u8>, unk: Vec<u8>, user: Vec<u8>, left: Vec<u8>, right: Vec<u8>, cost: Vec<u8> }
 fn generate(m: &mut Model) -> Option<Files> {
     let mut f = Files { lex: vec![], matrix: vec![], unk: vec![], user: vec![], left: vec![], right: vec![], cost: vec![] };
@@ -284,7 +273,7 @@ pub fn run(prop: &str, seed: u64, n: usize, outdir: &str, _corpus: Option<&str>)
         let mut mbytes = vec![];
         let wrote = model.write_model(&mut mbytes).is_ok();
         // the same model through a sink that takes the bytes in small pieces
-        let mut ch = Chunked { data: vec![], cap: 1 + rng.below(700) as usize };
+        let mut ch = crate::util::Chunked { data: vec![], cap: 1 + rng.below(700) as usize };
         let wrote_ch = model.write_model(&mut ch).is_ok();
         flags.push(("c15_write_model_short_writes".into(), (wrote_ch == wrote && ch.data == mbytes) as u8));
         let mut m2 = match Model::read_model(&mbytes[..]) { Ok(m) => m, Err(_) => { flags.push(("c15_read_model".into(), 0)); model.read_user_lexicon(c.user.as_bytes()).ok(); Model::read_model(&mbytes[..]).unwrap_or_else(|_| panic!()) } };
